@@ -30,6 +30,9 @@ pub enum Op {
     /// a correctly signed transaction of arbitrary shape (adversary::shape_tx) from a key that owns
     /// nothing, optionally pointing at key 1's live output
     AddShaped { code: u64 },
+    /// a staking (BlockStake-typed) transaction of another key arrives: it spends one output of
+    /// `payer` into a BlockStake output and change, signed by the payer
+    AddStakeTx { payer: u8 },
     /// the node's own producer, dt ms after the tip
     Bundle { dt: u32, gt: bool },
     /// a peer's block on the node's tip confirming a subset (mask) of the pooled transactions
@@ -55,6 +58,7 @@ pub struct Info {
     pub bundles_ok: usize,
     pub bundles_none: usize,
     pub conflicts_refused: usize,
+    pub stake_txs_submitted: usize,
     pub reorgs: usize,
     pub failed_blocks: usize,
     pub probes: usize,
@@ -250,6 +254,24 @@ pub fn run_case(case: &Case) -> (Vec<(String, String)>, Info) {
                     if w.node.mempool.transactions.contains_key(&sig) && e != TxEdit::NoSig {
                         // attributed to C01's catalogue; here only the invariants below matter
                     }
+                }
+            }
+            Op::AddStakeTx { payer } => {
+                opname = "add_stake_tx";
+                let pk = key(1 + payer % 3);
+                let taken: BTreeSet<Vec<u8>> = pool.iter().flat_map(|t| t.from.iter().map(|s| s.get_utxoset_key().to_vec())).collect();
+                if let Some(sl) = w.node.spendable_of(&pk.0, tip_id + 2).into_iter().find(|s| !taken.contains(&s.get_utxoset_key().to_vec()) && s.amount >= 10) {
+                    let mut t = tx_from_inputs(vec![sl.clone()], vec![(pk.0, sl.amount / 2)], &pk, tipb.timestamp + w.ts_salt, vec![]);
+                    let mut o = Slip::default();
+                    o.public_key = pk.0;
+                    o.amount = sl.amount - sl.amount / 2;
+                    o.slip_type = SlipType::BlockStake;
+                    t.to.insert(0, o);
+                    t.transaction_type = TransactionType::BlockStake;
+                    t.sign(&pk.1);
+                    t.generate(&key(0).0, 0, 0);
+                    let _ = catch(|| block_on(w.node.mempool.add_transaction_if_validates(t, &w.node.chain)));
+                    info.stake_txs_submitted += 1;
                 }
             }
             Op::AddShaped { code } => {
@@ -481,6 +503,7 @@ pub fn arb_op() -> impl Strategy<Value = Op> {
         1 => any::<u16>().prop_map(|sel| Op::AddDuplicate { sel }),
         1 => any::<u8>().prop_map(|edit| Op::AddInvalid { edit }),
         1 => any::<u64>().prop_map(|code| Op::AddShaped { code }),
+        1 => (0u8..3).prop_map(|payer| Op::AddStakeTx { payer }),
         3 => (prop_oneof![Just(6000u32), 200u32..6000], any::<bool>()).prop_map(|(dt, gt)| Op::Bundle { dt, gt }),
         2 => (any::<u8>(), 200u32..800).prop_map(|(mask, dt)| Op::PeerConfirm { mask, dt }),
         3 => (any::<u16>(), 200u32..800).prop_map(|(sel, dt)| Op::PeerSpendsOneInput { sel, dt }),
